@@ -55,6 +55,14 @@ type Call struct {
 	PanicAtTick uint64 `json:"panic_at_tick,omitempty"`
 	// SameAs >= 0: reuse the identical Source and Option values of the call with that index (history checks).
 	SameAs *int `json:"same_as,omitempty"`
+	// Repeat > 1 (history jobs): the call is made Repeat times in a row with the same argument values; the recorded
+	// outcome is that of the last repetition (long histories are mostly such filler)
+	Repeat int `json:"repeat,omitempty"`
+	// NoRef (history jobs): the result of this call is not compared with a fresh-process reference (filler)
+	NoRef bool `json:"no_ref,omitempty"`
+	// ShareOpts >= 0 (conc jobs): this caller passes the very Option values built for the caller with that index (an
+	// application builds its []autog.Option once and hands it to every goroutine); its source is its own.
+	ShareOpts *int `json:"share_opts,omitempty"`
 }
 
 // Override dictates the permutation applied at one execution of one map-range site.
@@ -74,6 +82,9 @@ type Resolution struct {
 	T0        int64      `json:"t0,omitempty"`      // simulated clock origin (ns since epoch)
 	Rate      int64      `json:"rate,omitempty"`    // simulated ns per tick (0 = 1000): how fast the machine is
 	Entropy   uint64     `json:"entropy,omitempty"` // seed behind math/rand globals
+	// ClockPerRead: the simulated clock advances by a fixed step per read instead of per tick, so that what a call
+	// observes of the clock does not depend on how much work it did before the read (conc jobs)
+	ClockPerRead bool `json:"clock_per_read,omitempty"`
 }
 
 type Budgets struct {
@@ -110,6 +121,8 @@ type Job struct {
 	// stress (real worker only): goroutines x rounds
 	Goroutines int `json:"goroutines,omitempty"`
 	Rounds     int `json:"rounds,omitempty"`
+	// stress: the Option values of call i are built once and shared by every goroutine that makes call i
+	ShareOpts bool `json:"share_opts,omitempty"`
 }
 
 // AppliedPerm reports a permutation the adversary applied.
@@ -139,6 +152,7 @@ type Outcome struct {
 	PermKinds map[string]int    `json:"perm_kinds,omitempty"`
 	Perms     []AppliedPerm     `json:"perms,omitempty"`
 	ClockReads int              `json:"clock_reads,omitempty"`
+	ClockHash  string           `json:"clock_hash,omitempty"` // hash of every clock value the call was handed
 	RandSeed   int64            `json:"rand_seed,omitempty"`
 	ArgsMutated string          `json:"args_mutated,omitempty"`
 	Nodes int `json:"nodes,omitempty"`
